@@ -77,7 +77,7 @@ def exec_session(job):
     reg = struct.pack("<HHII", 0x65, 4, 0, 0) + b"probe..." + struct.pack("<I", 0) + b"\x01\x00\x00\x00"
     lsv = struct.pack("<HHII", 0x04, 0, 0, 0) + b"probe..." + struct.pack("<I", 0)
     ev2 = vsock.session([reg + lsv], addr=("10.0.0.2", 4001))
-    others = [e["a"] for e in ev2] == ["recv", "proc", "send", "proc", "send", "eof", "close"] and dev.get_mem() == final
+    others = [e["a"] for e in ev2] == ["recv", "proc", "send", "proc", "send", "eof", "close", "conns-left"] and dev.get_mem() == final
     return {"sc": sc, "ev": ev, "final": final, "others": others, "sizes": sizes, "acc": nacc}
 
 
@@ -114,7 +114,7 @@ def validate(ctx, lines, name, chunk=1500):
 def report(ctx, bad, label):
     classes = {}
     for ln, at, why in bad:
-        kinds = ",".join(f["kind"] + ("/" + f["req"]["svc"] if f["kind"] == "rr" else "") for f in ln["sc"]["frames"])
+        kinds = ",".join(f["kind"] + ("/" + f["req"]["svc"] if f["kind"] in ("rr", "unit") else "") for f in ln["sc"]["frames"])
         classes[(why, kinds, ln["sc"]["pers"]["k"])] = classes.get((why, kinds, ln["sc"]["pers"]["k"]), 0) + 1
     for k in sorted(classes)[:40]:
         print("  rejected-class %s x%d" % (" ".join(k), classes[k]))
